@@ -1176,6 +1176,9 @@ class PDFPageInterpreter:
             if settings.STRICT:
                 raise PDFInterpreterError("No font specified!")
             return
+        if not isinstance(seq, list):
+            log.warning(f"Cannot show text because {seq!r} is not an array")
+            return
         assert self.ncs is not None
         self.device.render_string(
             self.textstate,
